@@ -80,6 +80,14 @@ def m_leading_blank(rng, terms, segs):
         segs[i][0] = rng.choice([' ', '  ', ' ' + segs[i][0], '   ' + segs[i][0]])
 
 
+def m_trailing_separator(rng, terms, segs):
+    """one or two empty elements at the end of a body segment: the segment text ends in element separators"""
+    idx = [i for i in _body_idx(segs) if segs[i][0] not in HEADERS + TRAILERS and segs[i][1]]
+    if idx:
+        i = rng.choice(idx)
+        segs[i][1] = list(segs[i][1]) + [['']] * rng.choice([1, 1, 2])
+
+
 def m_orphan_trailer(rng, terms, segs):
     t = rng.choice(TRAILERS)
     segs.insert(rng.randint(1, len(segs)), [t, [[rng.choice(['1', '0', 'X', ''])], [rng.choice(['0001', '1', '000000001', ''])]]])
@@ -168,7 +176,7 @@ def m_renumber(rng, terms, segs):
 
 MUTATORS = [('delete', m_delete), ('duplicate', m_duplicate), ('swap', m_swap), ('move', m_move), ('retag', m_retag),
             ('orphan-trailer', m_orphan_trailer), ('drop-trailers', m_drop_trailers), ('drop-header', m_drop_header), ('counts', m_counts),
-            ('ele-surgery', m_ele_surgery), ('ele-surgery', m_ele_surgery), ('renumber', m_renumber), ('leading-blank', m_leading_blank)]
+            ('ele-surgery', m_ele_surgery), ('ele-surgery', m_ele_surgery), ('renumber', m_renumber), ('leading-blank', m_leading_blank), ('trailing-separator', m_trailing_separator)]
 
 
 def mutate(rng, text, n=None, eol='\n'):
